@@ -306,10 +306,12 @@ def _makespan_shape(ctx, mk):
     if not (isinstance(val, ast.BinOp) and isinstance(val.op, ast.Sub)):
         raise AnalysisError(f"MakespanReward.update: reward `{ast.unparse(val)}` not recognised")
     l, r = val.left, val.right
-    l_old = is_old(l)
+    # the attribute read before it is advanced is the previous makespan
+    before_store = pos(app[0]) < pos(store[0])
+    l_old = is_old(l) or (before_store and ast.unparse(l) == "self.current_makespan")
     r_new = is_new(r, pos(app[0])) or ast.unparse(_expand(ctx, upd, r)) == ast.unparse(new_e)
     l_new = is_new(l, pos(app[0])) or ast.unparse(_expand(ctx, upd, l)) == ast.unparse(new_e)
-    r_old = is_old(r)
+    r_old = is_old(r) or (before_store and ast.unparse(r) == "self.current_makespan")
     if l_old and r_new:
         chk.ok("R13.c", upd.qualname, upd.loc(app[0]), "reward = previous makespan - max(previous, scheduled end)")
     elif l_new and r_old:
@@ -384,7 +386,8 @@ def _idle_shape(ctx, it):
         else:
             chk.violation("R13.d", upd, val, f"the idle-time reward `{ast.unparse(val)}` is not the negated idle time", loc=upd.loc(app[0]))
             return
-    idle_name = val.operand if isinstance(val, ast.UnaryOp) else val
+    negated = isinstance(val, ast.UnaryOp)
+    idle_name = val.operand if negated else val
     defs = []
     if isinstance(idle_name, ast.Name):
         defs = [d[1] for d in ctx.flow.defs(upd).of(idle_name.id) if d[0] == "value"]
@@ -392,6 +395,22 @@ def _idle_shape(ctx, it):
         defs = [idle_name]
     if not defs:
         raise AnalysisError("IdleTimeReward.update: idle time definition not found")
+    if not negated:
+        # the expression is the reward itself: `a - b` is the negated idle time `b - a`, `-x` that of x
+        idle = []
+        for d in defs:
+            d = _expand(ctx, upd, d)
+            if isinstance(d, ast.UnaryOp) and isinstance(d.op, ast.USub):
+                idle.append(d.operand)
+            elif isinstance(d, ast.BinOp) and isinstance(d.op, ast.Sub):
+                idle.append(ast.copy_location(ast.BinOp(left=d.right, op=ast.Sub(), right=d.left), d))
+            elif isinstance(d, ast.Constant) and d.value == 0:
+                continue
+            else:
+                idle = None
+                break
+        if idle:
+            defs, negated = idle, True
     ok = True
     saw_gap = False
     for d in defs:
@@ -402,6 +421,11 @@ def _idle_shape(ctx, it):
         if isinstance(d, ast.BinOp) and isinstance(d.op, ast.Sub) and ctx.norm.xtext(upd, d.left) == f"{sop}.start_time":
             saw_gap = True
             prev = _expand(ctx, upd, d.right)
+            if isinstance(prev, ast.Name):
+                # `release = 0` when the machine had nothing before, else the previous end: judge the latter
+                vs = [v for k_, v, _s in ctx.flow.defs(upd).of(prev.id) if k_ == "value" and not (isinstance(v, ast.Constant) and v.value == 0)]
+                if len(vs) == 1:
+                    prev = _expand(ctx, upd, vs[0])
             pt = ast.unparse(prev)
             # previous operation: <machine list without the last>[-1].end_time, list indexed by sop.machine_id
             if isinstance(prev, ast.Attribute) and prev.attr == "end_time":
@@ -469,7 +493,7 @@ def _idle_shape(ctx, it):
             chk.violation("R13.d", upd, d, "idle time is (previous end - start): the reward is positive", loc=upd.loc(app[0]))
         else:
             raise AnalysisError(f"IdleTimeReward.update: idle time `{t}` not recognised")
-    if isinstance(val, ast.UnaryOp) and ok and saw_gap:
+    if negated and ok and saw_gap:
         chk.ok("R13.d", upd.qualname, upd.loc(app[0]), "reward = -(start - end of previous operation on the scheduled machine)")
-    elif not isinstance(val, ast.UnaryOp) and ok:
+    elif not negated and ok:
         chk.violation("R13.d", upd, val, "the idle-time reward is not negated: rewards are non-negative", loc=upd.loc(app[0]))
